@@ -53,6 +53,9 @@ ScanFrom(t, p, cur, acc) ==
                 ELSE LET v == (d - 48) * 100 + (t[p + 2] - 48) * 10 + (t[p + 3] - 48)
                      IN IF v > 255 THEN Bad ELSE ScanFrom(t, p + 4, Append(cur, v), acc)
            ELSE IF d < 32 \/ d > 126 THEN Bad
+           \* `\[` at the start of a label announces an RFC 2673 binary label,
+           \* which is refused (NameBuilder.tla, symbol kind "bracket")
+           ELSE IF d = 91 /\ cur = <<>> THEN Bad
            ELSE ScanFrom(t, p + 2, Append(cur, d), acc)
     ELSE IF c < 32 \/ c > 126 THEN Bad
     ELSE ScanFrom(t, p + 1, Append(cur, c), acc)
@@ -74,6 +77,49 @@ TextAsRelative(t) ==
   LET r == ScanText(t)
   IN IF ~r.ok \/ r.abs \/ ~ValidRel(r.name) THEN Err ELSE <<"rel", ToWireRel(r.name)>>
 
+\* one label written as text (OwnedLabel::from_str / from_chars): the symbols
+\* of the text with no unescaped dot; the empty text is the empty (root) label
+TextAsLabel(t) ==
+  LET r == ScanFrom(t, 1, <<>>, <<>>)
+  IN IF t = <<>> THEN <<"lab", <<>>>>
+     ELSE IF ~r.ok \/ r.abs \/ Len(r.name) # 1 THEN Err
+     ELSE IF Len(r.name[1]) > 63 THEN Err ELSE <<"lab", r.name[1]>>
+\* ... except that what a backslash before a character that is no printable
+\* ASCII means for a single label is left open (the name readers refuse it)
+RECURSIVE LabFreeFrom(_, _)
+LabFreeFrom(t, p) ==
+  IF p >= Len(t) THEN FALSE
+  ELSE IF t[p] # 92 THEN LabFreeFrom(t, p + 1)
+  ELSE IF t[p + 1] < 32 \/ t[p + 1] > 126 THEN TRUE
+  ELSE IF IsDigit(t[p + 1]) THEN LabFreeFrom(t, p + 4)
+  ELSE LabFreeFrom(t, p + 2)
+LabelTextFree(t) == LabFreeFrom(t, 1)
+
+\* a text the zone-file tokenizer takes as one unquoted token standing for
+\* itself: no unescaped blank, line end, quote, parenthesis or semicolon, and
+\* not the bare `@`.  (Conservative: a special character counts as escaped
+\* only if exactly one backslash precedes it.)
+ZoneSpecials == {9, 10, 13, 32, 34, 40, 41, 59}
+ZoneTokenSafe(t) ==
+  /\ t # <<>> /\ t # <<64>>
+  /\ \A p \in 1..Len(t) :
+        t[p] \in ZoneSpecials => (p > 1 /\ t[p - 1] = 92 /\ (p = 2 \/ t[p - 2] # 92))
+
+\* the symbols of presentation format (base::scan::Symbol) and the octet
+\* each stands for: an unescaped character must be printable ASCII, the two
+\* escaped forms carry their octet
+SymOctet(sym) == IF sym[1] = "char" THEN (IF sym[2] >= 32 /\ sym[2] <= 126 THEN sym[2] ELSE -1)
+                 ELSE sym[2]
+\* push_symbol on a builder that holds the text `pre` ("" or "a"): the
+\* relative name finish() returns afterwards and whether a label is open
+SymPush(pre, sym) ==
+  LET o == SymOctet(sym)
+      isdot == sym = <<"char", 46>>
+  IN IF isdot THEN (IF pre = <<>> THEN Err ELSE <<"rel", ToWireRel(<<pre>>), 0>>)
+     ELSE IF sym = <<"simple", 91>> /\ pre = <<>> THEN Err
+     ELSE IF o = -1 THEN Err
+     ELSE <<"rel", ToWireRel(<<Append(pre, o)>>), 1>>
+
 ---------------------------------------------------------------------------
 (* Enumerated domains *)
 
@@ -84,10 +130,24 @@ SeqsUpTo(S, n) == IF n = 0 THEN {<<>>}
 Labs(m) == SeqsUpTo(Alpha, m) \ {<<>>}
 L1 == Labs(1)
 LM == Labs(MaxLab)
+\* every octet value alone, inside a label, first and last in a label
+OctetNames == UNION {{ << <<b>> >>, << <<97, b, 98>> >>, << <<b, 97>>, <<98, b>> >> } : b \in 0..255}
 NameSet == {<<>>} \cup {<<a>> : a \in LM}
            \cup {<<a, b>> : a \in (IF Pairs THEN LM ELSE L1), b \in (IF Pairs THEN LM ELSE L1)}
            \cup {<<a, b, c>> : a \in L1, b \in L1, c \in L1}
-TextSet == SeqsUpTo(TextChars, MaxText)
+           \cup OctetNames
+\* every code point up to U+017F and some beyond, in each of its spellings
+\* (plain, after a backslash, as a decimal escape -- also of values above
+\* 255), alone, inside a label, after an escape sequence, as a label of its own
+CodePoints == 0..383 \cup {8232, 65533, 128512, 1114111}
+Dec3(v) == <<48 + (v \div 100), 48 + ((v \div 10) % 10), 48 + (v % 10)>>
+Spellings(c) == {<<c>>, <<92, c>>} \cup (IF c <= 383 THEN {<<92>> \o Dec3(c)} ELSE {})
+SpellCtx == {<< <<>>, <<>> >>, << <<97>>, <<98>> >>, << <<92, 48, 57, 55>>, <<>> >>,
+             << <<97, 46>>, <<46, 98>> >>}
+SpellTexts == {x[1] \o sp \o x[2] : x \in SpellCtx, sp \in UNION {Spellings(c) : c \in CodePoints}}
+TextSet == SeqsUpTo(TextChars, MaxText) \cup SpellTexts
+SymSet == {<<"char", c>> : c \in CodePoints}
+          \cup {<<"simple", b>> : b \in 0..255} \cup {<<"dec", b>> : b \in 0..255}
 
 \* label-length shapes around the limits (contents all 'a')
 B3 == <<63, 63, 63>>
@@ -112,6 +172,7 @@ Off(n, j) == SumSeq([i \in 1..j |-> 1 + Len(n[i])])      \* octet index where la
 NameCase(n) ==
   LET k == Len(n)
       w == ToWireAbs(n)
+      w0 == ToWireAbs(LowerName(n))
       e == [valid |-> TRUE,
             \* from_str / from_chars of the library's own Display, with and without final dot
             disp |-> w, chars |-> w, dot |-> w,
@@ -135,7 +196,22 @@ NameCase(n) ==
             rsplits |-> [j \in 1..(k + 1) |->
                           <<Off(n, j - 1), ToWireRel(SubSeq(n, 1, j - 1)), ToWireRel(SubSeq(n, j, k))>>],
             rnonb |-> (Len(w) + 1) - (k + 1),
-            rparent |-> IF k = 0 THEN <<"none">> ELSE <<"rel", ToWireRel(Tail(n))>>]
+            rparent |-> IF k = 0 THEN <<"none">> ELSE <<"rel", ToWireRel(Tail(n))>>,
+            \* canonical form (make_canonical, to_canonical, compose_canonical):
+            \* ASCII upper case letters lowered, no other octet touched
+            canon |-> w0, relcanon |-> ToWireRel(LowerName(n)),
+            \* every label on its own: its text read back as a label (OwnedLabel),
+            \* rebuilt from its octets (Label::from_slice ...); is it the wildcard label
+            labs |-> n,
+            wild |-> [i \in 1..k |-> n[i] = Star],
+            ndots |-> IF k = 0 THEN 0 ELSE k - 1,
+            \* every other view of / conversion between representations of the
+            \* same value (AsRef, Borrow, for_ref, as_octets, into_octets, label
+            \* iteration by IntoIterator, OctetsFrom, ParsedName::from, serde)
+            views |-> w, rviews |-> ToWireRel(n),
+            \* the absolute text as owner and as record data of a zone file,
+            \* through every way of constructing the reader
+            zf |-> <<"abs", w, 1>>]
   IN [in  |-> [k |-> "name", wire |-> w, rel |-> ToWireRel(n),
                text |-> PresentAbs(n), reltext |-> PresentRel(n)],
       exp |-> e,
@@ -170,25 +246,93 @@ GoodUpTo(t, p) ==
        ELSE GoodUpTo(t, p + 2)
 GoodPrefix(t) == SubSeq(t, 1, GoodUpTo(t, 1))
 
+\* the text as record data of a zone file under $ORIGIN example.
+TextInZone(t) ==
+  LET r == ScanText(t)
+      full == IF r.ok THEN (IF r.abs THEN r.name ELSE r.name \o <<<<101, 120, 97, 109, 112, 108, 101>>>>) ELSE <<>>
+  IN IF ~ZoneTokenSafe(t) THEN <<"skip">>
+     ELSE IF r.ok /\ ValidAbs(full) THEN <<"abs", ToWireAbs(full), 1>> ELSE <<"err", <<>>, 1>>
 TextCase(t) ==
-  [in  |-> [k |-> "text", text |-> t],
+  LET e == [name |-> TextAsName(t), iscan |-> TextAsName(t),
+            unc |-> TextAsUncertain(t), rel |-> TextAsRelative(t),
+            lab |-> IF LabelTextFree(t) THEN <<"free">> ELSE TextAsLabel(t),
+            zf |-> TextInZone(t)]
+  IN
+  [in  |-> [k |-> "text", text |-> t, labfree |-> LabelTextFree(t), zfsafe |-> ZoneTokenSafe(t)],
    \* iscan: Name::scan on an IterScanner whose only token is t
-   exp |-> [name |-> TextAsName(t), iscan |-> TextAsName(t),
-            unc |-> TextAsUncertain(t), rel |-> TextAsRelative(t)],
+   exp |-> e,
    dev |-> (IF t = <<46>>
-            THEN [D_uncertain_root_text |->
-                    [name |-> TextAsName(t), iscan |-> TextAsName(t), unc |-> Err,
-                     rel |-> TextAsRelative(t)]]
+            THEN [D_uncertain_root_text |-> [e EXCEPT !.unc = Err]]
             ELSE <<>>)
            @@
            \* IterScanner::scan_name stops reading at a malformed escape
            \* sequence and returns the name read so far
            (LET cut == TextAsName(GoodPrefix(t))
             IN IF GoodPrefix(t) # t /\ cut # TextAsName(t)
-               THEN [D_iterscanner_bad_escape |->
-                       [name |-> TextAsName(t), iscan |-> cut, unc |-> TextAsUncertain(t),
-                        rel |-> TextAsRelative(t)]]
+               THEN [D_iterscanner_bad_escape |-> [e EXCEPT !.iscan = cut]]
                ELSE <<>>)]
+
+\* the sub-model's own law for the spellings: each legal spelling of an octet
+\* reads as that octet, wherever it stands
+SpellLaw ==
+  mode = "sym" /\ val[1] # "char" =>
+    LET b == val[2]
+        sp == IF val[1] = "dec" THEN <<92>> \o Dec3(b) ELSE <<92, b>>
+        legal == val[1] = "dec" \/ (b >= 32 /\ b <= 126 /\ ~IsDigit(b))
+    IN /\ legal => ScanText(<<97>> \o sp \o <<98>>) = [ok |-> TRUE, abs |-> FALSE, name |-> << <<97, b, 98>> >>]
+       /\ ~legal => (~ScanText(<<97>> \o sp \o <<98>>).ok
+                      \/ ScanText(<<97>> \o sp \o <<98>>).name # << <<97, b, 98>> >>)
+
+---------------------------------------------------------------------------
+(* mode "sym": every symbol of presentation format and the octet it stands *)
+(* for; mode "const": the ready-made names; mode "rev": names made from    *)
+(* numbers (decimal and hexadecimal digit labels, reverse-lookup names)    *)
+
+SymCase(v) ==
+  [in |-> [k |-> "sym", kind |-> v[1], v |-> v[2]],
+   exp |-> [octet |-> SymOctet(v), fresh |-> SymPush(<<>>, v), open |-> SymPush(<<97>>, v)],
+   dev |-> <<>>]
+
+ConstCase ==
+  [in |-> [k |-> "const"],
+   exp |-> [root |-> <<"abs", ToWireAbs(<<>>)>>, empty |-> <<"rel", <<>>>>,
+            wild |-> <<"rel", ToWireRel(<<Star>>)>>,
+            rootlabel |-> <<>>, wildlabel |-> Star],
+   dev |-> <<>>]
+
+DecLabel(v) == IF v >= 100 THEN Dec3(v)
+               ELSE IF v >= 10 THEN <<48 + (v \div 10), 48 + (v % 10)>> ELSE <<48 + v>>
+\* (hexadecimal digits compare without regard to case, like all labels)
+HexDigit(x) == IF x < 10 THEN 48 + x ELSE 87 + x
+InAddrL == <<105, 110, 45, 97, 100, 100, 114>>
+ArpaL == <<97, 114, 112, 97>>
+Ip6L == <<105, 112, 54>>
+\* RFC 1035 3.5 / RFC 3596 2.5
+ReverseV4(a) == <<DecLabel(a[4]), DecLabel(a[3]), DecLabel(a[2]), DecLabel(a[1]), InAddrL, ArpaL>>
+ReverseV6(a) == [i \in 1..32 |-> LET byte == a[16 - ((i - 1) \div 2)]
+                                 IN IF i % 2 = 1 THEN <<HexDigit(byte % 16)>> ELSE <<HexDigit(byte \div 16)>>]
+                \o <<Ip6L, ArpaL>>
+V4Set == {[i \in 1..4 |-> IF i = p THEN v ELSE 10 * i] : p \in 1..4, v \in 0..255}
+V6Set == {[i \in 1..16 |-> v] : v \in 0..255}
+         \cup {[i \in 1..16 |-> IF i = p THEN v ELSE 0] : p \in {1, 2, 15, 16}, v \in {1, 10, 16, 171, 255}}
+         \cup {<<32, 1, 13, 184, 133, 163, 0, 0, 0, 0, 138, 46, 3, 112, 115, 52>>}
+RevSet == {<<"v4", a>> : a \in V4Set} \cup {<<"v6", a>> : a \in V6Set}
+          \cup {<<"dec", <<v>>>> : v \in 0..255} \cup {<<"hex", <<x>>>> : x \in 0..15}
+RevName(v) == CASE v[1] = "v4" -> ReverseV4(v[2]) [] v[1] = "v6" -> ReverseV6(v[2])
+                [] v[1] = "dec" -> <<DecLabel(v[2][1])>> [] OTHER -> <<<<HexDigit(v[2][1])>>>>
+RevCase(v) ==
+  [in |-> [k |-> "rev", kind |-> v[1], a |-> v[2]],
+   \* (the executor lowers ASCII letters before comparing)
+   exp |-> IF v[1] \in {"v4", "v6"} THEN <<"abs", ToWireAbs(RevName(v))>> ELSE <<"rel", ToWireRel(RevName(v))>>,
+   dev |-> <<>>]
+\* such names are valid, and the digit labels are what the builder model's
+\* append_digits step (which counts digits only) accounts for
+RevLaw ==
+  mode = "rev" =>
+    /\ ValidAbs(RevName(val))
+    /\ val[1] = "dec" =>
+          LET r == AppendDigitsF(InitSt, Len(DecLabel(val[2][1])), {})
+          IN r.res = "ok" /\ r.st.labs = <<Len(DecLabel(val[2][1]))>> /\ r.st.len = WireLenRel(RevName(val))
 
 ---------------------------------------------------------------------------
 (* mode "wire": arbitrary short octet strings through the wire constructors; *)
@@ -198,6 +342,10 @@ RECURSIVE RelWireOk(_, _)
 RelWireOk(s, p) == IF p > Len(s) THEN TRUE
                    ELSE /\ s[p] >= 1 /\ s[p] <= 63 /\ p + s[p] <= Len(s)
                         /\ RelWireOk(s, p + 1 + s[p])
+\* Label::split_from: the first label (the root label included) and the rest
+SplitLabel(s) == IF s = <<>> THEN Err
+                 ELSE IF s[1] > 63 \/ 1 + s[1] > Len(s) THEN Err
+                 ELSE <<"lab", SubSeq(s, 2, 1 + s[1]), SubSeq(s, 2 + s[1], Len(s))>>
 WireCase(s) ==
   LET r == FromWire(s, 1)
       whole == r.ok /\ r.next = Len(s) + 1
@@ -208,7 +356,8 @@ WireCase(s) ==
                rel   |-> IF relok THEN <<"rel", s>> ELSE Err,               \* RelativeName::from_octets / from_slice
                \* UncertainName::from_octets (the empty string is not compared)
                unc   |-> IF s = <<>> THEN <<"skip">>
-                         ELSE IF whole THEN <<"abs", s>> ELSE IF relok THEN <<"rel", s>> ELSE Err],
+                         ELSE IF whole THEN <<"abs", s>> ELSE IF relok THEN <<"rel", s>> ELSE Err,
+               label |-> SplitLabel(s)],
       dev |-> <<>>]
 
 ---------------------------------------------------------------------------
@@ -265,7 +414,14 @@ ShapeWireCase(ls) ==
   LET n == LabelsOf(ls)
       a == IF ValidAbs(n) THEN <<"abs", WireLenAbs(n), 1>> ELSE ErrR
       r == IF ValidRel(n) THEN <<"rel", WireLenRel(n), 1>> ELSE ErrR
-      ideal == [no |-> a, ns |-> a, np |-> a, ro |-> r, rs |-> r, ua |-> a, ur |-> r, fb |-> r]
+      \* a relative name made absolute (into_absolute, chain_root, an uncertain
+      \* name's into_absolute)
+      ra == IF ValidRel(n) THEN <<"abs", WireLenRel(n) + 1, 1>> ELSE ErrR
+      ideal == [no |-> a, ns |-> a, np |-> a, ro |-> r, rs |-> r, ua |-> a, ur |-> r, fb |-> r,
+                ria |-> ra, cr |-> ra, uia |-> ra,
+                \* each label on its own through the label constructors (from
+                \* octets and from text): its length, or -1 if refused
+                lb |-> [i \in 1..Len(ls) |-> IF ls[i] <= 63 THEN ls[i] ELSE -1]]
   IN [in |-> [k |-> "shape_wire", lens |-> ls], exp |-> ideal,
       \* UncertainName::from_octets tests a relative name against 255
       dev |-> IF WireLenRel(n) = 255 /\ \A i \in 1..Len(ls) : ls[i] <= 63
@@ -283,11 +439,17 @@ ShapeChainCase(ls) ==
       jmin == CHOOSE j \in js : \A i \in js : j <= i
       jmax == CHOOSE j \in js : \A i \in js : j >= i
       n == jmax - jmin + 1
-      ideal == [ra |-> [i \in 1..n |-> ChainRes(lft(jmin + i - 1) + rgt(jmin + i - 1) + 1, 255, "abs")],
-                rr |-> [i \in 1..n |-> ChainRes(lft(jmin + i - 1) + rgt(jmin + i - 1), 254, "rel")]]
-      asis  == [ra |-> ideal.ra,
-                rr |-> [i \in 1..n |-> IF lft(jmin + i - 1) + rgt(jmin + i - 1) = 255
-                                       THEN <<"rel", 255, 0>> ELSE ideal.rr[i]]]
+      ira == [i \in 1..n |-> ChainRes(lft(jmin + i - 1) + rgt(jmin + i - 1) + 1, 255, "abs")]
+      irr == [i \in 1..n |-> ChainRes(lft(jmin + i - 1) + rgt(jmin + i - 1), 254, "rel")]
+      arr == [i \in 1..n |-> IF lft(jmin + i - 1) + rgt(jmin + i - 1) = 255
+                             THEN <<"rel", 255, 0>> ELSE irr[i]]
+      \* ua: the left half as an uncertain (relative) name; uaa: the left half
+      \* made absolute first -- the right half is then not used; r3a / r3r: the
+      \* left half itself a chain of its first label and the rest (Chain::chain)
+      ideal == [ra |-> ira, rr |-> irr, ua |-> ira,
+                uaa |-> [i \in 1..n |-> <<"abs", lft(jmin + i - 1) + 1, 1>>],
+                r3a |-> ira, r3r |-> irr]
+      asis  == [ideal EXCEPT !.rr = arr, !.r3r = arr]
   IN [in |-> [k |-> "shape_chain", lens |-> ls, jmin |-> jmin, jmax |-> jmax], exp |-> ideal,
       dev |-> IF asis # ideal THEN [D_chain_rel_rel_255 |-> asis] ELSE <<>>]
 ChainShapes == {ls \in Shapes : (\A i \in 1..Len(ls) : ls[i] <= 63) /\ Len(ls) <= 8
@@ -563,6 +725,9 @@ NInit == /\ st = InitSt /\ last = NoCall
             \/ mode = "parsed" /\ val \in ParsedSet
             \/ mode = "ranges" /\ val \in RNames
             \/ mode = "affix" /\ val \in AffixSet
+            \/ mode = "sym" /\ val \in SymSet
+            \/ mode = "const" /\ val = 0
+            \/ mode = "rev" /\ val \in RevSet
 NNext == UNCHANGED <<mode, val, st, last>>
 NSpec == NInit /\ [][NNext]_<<mode, val, st, last>>
 
@@ -578,4 +743,7 @@ Emit ==
     [] mode = "parsed" -> PrintT("CASE " \o ToJson(ParsedCase(val)))
     [] mode = "ranges" -> PrintT("CASE " \o ToJson(RangesCase(val)))
     [] mode = "affix" -> PrintT("CASE " \o ToJson(AffixCase(val)))
+    [] mode = "sym" -> PrintT("CASE " \o ToJson(SymCase(val)))
+    [] mode = "const" -> PrintT("CASE " \o ToJson(ConstCase))
+    [] mode = "rev" -> PrintT("CASE " \o ToJson(RevCase(val)))
 =============================================================================
